@@ -612,6 +612,11 @@ impl Woz2 {
         }
         let bit_count_le = self.get_trk_ref(track)?.bit_count;
         let bit_count = u32::from_le_bytes(bit_count_le) as usize;
+        if bit_count==0 || bit_count > 8*self.get_trk_bits_ref(track)?.len() {
+            // an empty or overlong bit stream cannot be rotated under the head
+            debug!("track {} has an invalid bit count {}",track,bit_count);
+            return Err(img::NibbleError::BadTrack);
+        }
         let mut ans: Box<dyn super::TrackBits> = match self.kind {
             super::names::A2_DOS32_KIND => Box::new(disk525::TrackBits::create(
                 track as usize,
